@@ -123,6 +123,68 @@ func (b *minerBackend) BlockChain() *core.BlockChain      { return b.bc }
 func (b *minerBackend) TxPool() *core.TxPool              { return b.pool }
 func (b *minerBackend) ChainDb() aquadb.Database          { return b.db }
 
+// MinerRig is a real miner on a node, with the simulator owning proof-of-work
+// discovery: Found() lets exactly one waiting Seal return.
+type MinerRig struct {
+	Node  *Node
+	Pool  *core.TxPool
+	Mux   *event.TypeMux
+	Miner *miner.Miner
+	eng   *gatedEngine
+}
+
+// NewMinerRig builds pool, event mux and miner for node n (the miner is not started).
+func NewMinerRig(u *Universe, n *Node) *MinerRig {
+	poolCfg := core.DefaultTxPoolConfig
+	poolCfg.Journal = ""
+	poolCfg.PriceLimit = 0
+	r := &MinerRig{Node: n, Pool: core.NewTxPool(poolCfg, u.Cfg, n.BC), Mux: new(event.TypeMux), eng: &gatedEngine{Engine: u.Engine, gate: make(chan struct{})}}
+	r.Miner = miner.New(&minerBackend{bc: n.BC, pool: r.Pool, db: n.Disk}, u.Cfg, r.Mux, r.eng)
+	return r
+}
+
+// Ahead keeps the bubble clock at least two seconds past the head's timestamp
+// (the worker sleeps with its locks held when the next timestamp lies in the future).
+func (r *MinerRig) Ahead() {
+	headT := time.Unix(r.Node.BC.CurrentBlock().Time().Int64(), 0)
+	if d := time.Until(headT); d > -2*time.Second {
+		time.Sleep(d + 2*time.Second)
+	}
+}
+
+// Recommit makes the worker assemble fresh work stamped with the current time
+// (a real miner's work ages with the clock only when it is rebuilt).
+func (r *MinerRig) Recommit(coinbase common.Address) {
+	r.Ahead()
+	r.Miner.Stop()
+	time.Sleep(100 * time.Millisecond)
+	r.Ahead()
+	r.Miner.Start(coinbase)
+	time.Sleep(100 * time.Millisecond)
+}
+
+// Found releases one waiting Seal; false if no sealer was waiting within 5 simulated seconds.
+func (r *MinerRig) Found() bool {
+	select {
+	case r.eng.gate <- struct{}{}:
+		return true
+	case <-time.After(5 * time.Second):
+		return false
+	}
+}
+
+// MakeTx signs a transaction of the universe's templates for the next block of node n.
+func (u *Universe) MakeTx(tr *TxRecipe, nonce uint64, next *big.Int) *types.Transaction {
+	tx, _ := u.makeTx(tr, nonce, next)
+	return tx
+}
+
+// GenTxs draws transaction recipes (exported for the full-stack simulation).
+func GenTxs(rng *kernel.RNG, accounts, max int) []TxRecipe { return genTxs(rng, accounts, max) }
+
+// NodeStateDigest is the independent-traversal digest of a state on node n.
+func NodeStateDigest(n *Node, root common.Hash) (string, error) { return nodeStateDigest(n, root) }
+
 func ExecMine(t *testing.T, pa any, col *kernel.Collector) []kernel.Violation {
 	p := pa.(*MinePlan)
 	var vs []kernel.Violation
@@ -263,6 +325,15 @@ func execMine(p *MinePlan, col *kernel.Collector) []kernel.Violation {
 			time.Sleep(10 * time.Millisecond)
 		case "mine":
 			ahead(time.Duration(st.Wait) * time.Second)
+			if st.Wait >= 30 {
+				// rebuild the work so that the block carries the current time
+				ahead(0)
+				mn.Stop()
+				time.Sleep(100 * time.Millisecond)
+				ahead(0)
+				mn.Start(coinbase)
+				time.Sleep(100 * time.Millisecond)
+			}
 			before := M.BC.CurrentBlock().NumberU64()
 			select {
 			case eng.gate <- struct{}{}:
